@@ -12,8 +12,11 @@
 //!   predict : { rows: [ { num, proba, pkey, label, label_ds, num1, proba1, pkey1, label1 } ] }
 //!             proba/label: one batch call on all queries; label_ds: `predict(DatasetBase)`;
 //!             proba1/label1: the same observation passed alone (1-row array)
-//!   refit   : { ok, err, budget, w, means }   only when n_runs = 1 and the fit succeeded: the same
-//!             parameters, data and seed with a larger iteration budget (4 * maxit + 10)
+//!   refit   : { ok, err, budget, w, means, dg, prefix: [ {ok, err, dg} for n_runs = 1 .. runs-1 ] }
+//!             after a successful fit: the same parameters, data and seed (a) with fewer runs
+//!             (n_runs = 1 .. runs-1, same budget) and (b) with a larger iteration budget
+//!             (4 * maxit + 10, same n_runs); dg = digest of the bit patterns of weights, means,
+//!             covariances (the model event carries the digest of the fitted model)
 //!   panic   : { at, msg }   a panic inside one call; no specification action explains it
 use linfa::traits::{Fit, Predict};
 use linfa::{DatasetBase, Float};
@@ -102,6 +105,12 @@ fn clean(s: &str) -> String {
     s.chars().filter(|c| c.is_ascii() && *c != '"' && *c != '\\').take(100).collect()
 }
 
+/// digest of the bit patterns of weights, means and covariances (as f64; exact for f32 too)
+fn model_digest<F: Float>(g: &GaussianMixtureModel<F>) -> Value {
+    let v: Vec<f64> = g.weights().iter().chain(g.means().iter()).chain(g.covariances().iter()).map(|x| f64of(*x)).collect();
+    digest_f64(v.iter())
+}
+
 fn proba_row<F: Float>(row: ndarray::ArrayView1<F>) -> (bool, Value, Value) {
     let vals: Vec<f64> = row.iter().map(|v| f64of(*v)).collect();
     let enc = fxv(vals.iter(), WS);
@@ -130,15 +139,15 @@ fn run_t<F: Float>(inp: &Value) -> Vec<Value> {
     let dataset = DatasetBase::from(x.clone());
     let runs = geti(inp, "runs") as u64;
     let maxit = geti(inp, "maxit") as u64;
-    let mk_params = |budget: u64| {
+    let mk_params = |budget: u64, nruns: u64| {
         GaussianMixtureModel::<F>::params_with_rng(k, Xoshiro256Plus::seed_from_u64(geti(inp, "seed") as u64))
             .tolerance(F::cast(tol))
             .reg_covariance(F::cast(reg))
-            .n_runs(runs)
+            .n_runs(nruns)
             .max_n_iterations(budget)
             .init_method(init)
     };
-    let params = mk_params(maxit);
+    let params = mk_params(maxit, runs);
     let gmm = match guarded(|| params.fit(&dataset)) {
         Err(msg) => {
             ev.push(panic_event("fit", &msg));
@@ -162,6 +171,7 @@ fn run_t<F: Float>(inp: &Value) -> Vec<Value> {
         let prec = gmm.precisions();
         let mut o = Map::new();
         o.insert("ev".into(), json!("model"));
+        o.insert("dg".into(), model_digest(&gmm));
         o.insert("k".into(), json!(w.len()));
         o.insert("p".into(), json!(means.ncols()));
         o.insert("mrows".into(), json!(means.nrows()));
@@ -248,19 +258,30 @@ fn run_t<F: Float>(inp: &Value) -> Vec<Value> {
     }
     ev.push(json!({"ev": "predict", "nrows": proba.nrows(), "ncols": proba.ncols(), "nlab": labels.len(), "nlabds": labels_ds.len(), "rows": rows}));
 
-    // ---- the same fit with a larger iteration budget (single run only)
-    if runs == 1 {
-        let budget = 4 * maxit + 10;
-        let params2 = mk_params(budget);
-        match guarded(|| params2.fit(&dataset)) {
-            Err(msg) => ev.push(panic_event("refit", &msg)),
-            Ok(Err(e)) => ev.push(json!({"ev": "refit", "ok": false, "err": err_kind(&e), "budget": budget, "num": false, "w": [], "means": []})),
-            Ok(Ok(g2)) => {
-                let w: Vec<f64> = g2.weights().iter().map(|v| f64of(*v)).collect();
-                let wv = fxv(w.iter(), WS);
-                let mv = Value::Array(g2.means().outer_iter().map(|r| Value::Array(r.iter().map(|v| fx(f64of(*v), MS)).collect())).collect());
-                ev.push(json!({"ev": "refit", "ok": true, "err": "", "budget": budget, "num": all_int(&wv) && all_int(&mv), "w": wv, "means": mv}));
+    // ---- the same fit with fewer runs (same budget), and with a larger iteration budget (same runs)
+    let mut prefix = vec![];
+    for j in 1..runs {
+        let pj = mk_params(maxit, j);
+        match guarded(|| pj.fit(&dataset)) {
+            Err(msg) => {
+                ev.push(panic_event("prefix_fit", &msg));
+                return ev;
             }
+            Ok(Err(e)) => prefix.push(json!({"ok": false, "err": err_kind(&e), "dg": [0, 0]})),
+            Ok(Ok(g)) => prefix.push(json!({"ok": true, "err": "", "dg": model_digest(&g)})),
+        }
+    }
+    let budget = 4 * maxit + 10;
+    let params2 = mk_params(budget, runs);
+    match guarded(|| params2.fit(&dataset)) {
+        Err(msg) => ev.push(panic_event("refit", &msg)),
+        Ok(Err(e)) => ev.push(json!({"ev": "refit", "ok": false, "err": err_kind(&e), "budget": budget, "num": false, "w": [], "means": [], "dg": [0, 0], "prefix": prefix})),
+        Ok(Ok(g2)) => {
+            let w: Vec<f64> = g2.weights().iter().map(|v| f64of(*v)).collect();
+            let wv = fxv(w.iter(), WS);
+            let mv = Value::Array(g2.means().outer_iter().map(|r| Value::Array(r.iter().map(|v| fx(f64of(*v), MS)).collect())).collect());
+            ev.push(json!({"ev": "refit", "ok": true, "err": "", "budget": budget, "num": all_int(&wv) && all_int(&mv), "w": wv, "means": mv,
+                           "dg": model_digest(&g2), "prefix": prefix}));
         }
     }
     ev
